@@ -270,16 +270,33 @@ def locate(func):
     """node id -> (block id, position of the enclosing CFG element in that block).
     Every node is attributed to its nearest ancestor-or-self that is a CFG element or a
     terminator condition (conditions get position = number of elements)."""
+    if getattr(func, '_locate', None) is not None:
+        return func._locate
     cfg = func.cfg
     m = {}
+    func._locate = m
     if cfg is None:
         return m
     elem = {}
+    declnode = {}
+    for n in func.nodes.values():
+        if n['k'] == 'decl':
+            for v in n['v']:
+                declnode[v['d']] = n
     for b, blk in cfg.blocks.items():
         pos = 0
         for e in blk['el']:
             if isinstance(e, int) and e >= 0:
                 elem.setdefault(e, (b, pos))
+            elif isinstance(e, dict) and 'declof' in e:
+                # clang splits `T a = .., b = ..;` into one synthesized statement per variable:
+                # attribute each initialiser (and the whole statement, first come) to its element
+                dn = declnode.get(e['declof'])
+                if dn is not None:
+                    elem.setdefault(dn['i'], (b, pos))
+                    for v in dn['v']:
+                        if v['d'] == e['declof'] and v.get('init') is not None and 'i' in v['init']:
+                            elem.setdefault(v['init']['i'], (b, pos))
             pos += 1
         c = blk.get('cond')
         if c is not None and c >= 0:
